@@ -54,7 +54,7 @@ theorem parseSequenceTuple_seqData (s : SeqState) (h1 : -(2 ^ 63 : Int) ≤ s.la
   rw [if_neg (by omega), if_pos (by omega)]
   simp (disch := omega) only [uN_ok, ok_bind, pure_eq_ok]
   rw [if_pos (by omega)]
-  simp (disch := omega) only [uN_ok, ok_bind, pure_eq_ok]
+  simp only [ok_bind]
   have r0 : rd 8 (List.drop 0 (seqData s)) = ofSigned 64 s.lastValue := by
     unfold seqData
     rw [List.drop_zero, List.append_assoc]
@@ -144,7 +144,7 @@ theorem parseSequenceFile_enc (p : SeqPage) (h : p.WF) :
   rw [if_neg (by omega)]
   simp (disch := omega) only [uN_ok, ok_bind, pure_eq_ok, r16]
   rw [if_neg (by omega)]
-  simp (disch := omega) only [uN_ok, ok_bind, r8184, r12, r24, hd1, hd2]
+  simp only [r8184, r12, r24, hd1, hd2]
   rw [if_neg (by simp [seqMagic]), if_neg (by omega), if_neg (by omega)]
   simp (disch := omega) only [slice_ok, ok_bind, hslice]
   rw [if_neg (by omega)]
@@ -197,7 +197,7 @@ theorem findSequences_enc (env : Model.SeqEnv) (dir : String) (dbName dbData cla
     Model.findSequences env dir dbName =
       .ok (some (((env.parseClass classData).filter fun c => c.kind == [83]).map fun c => listed c (pageOf c))) := by
   unfold Model.findSequences
-  simp only [h1, h2, if_neg h3, h4, pure_eq_ok, ok_bind]
+  simp only [h1, h2, if_neg h3, h4, pure_eq_ok]
   rw [findSeqLoop_enc env _ pageOf _ h5]
   rfl
 
